@@ -27,22 +27,9 @@ def mut(name, prop, file, old, new, count=1, only=None):
     M.append(dict(name=name, prop=prop, file=file, old=old, new=new, count=count, only=only))
 
 
-# ---- C01 -------------------------------------------------------------------------------------
-mut("c01-native-no-zero-fill", "C01", "autoarray/structures/arrays/array_2d_util.py",
-    "    if is_native and not skip_mask:\n        array_2d *= np.invert(mask_2d)\n",
-    "    if is_native and not skip_mask and not store_native:\n        array_2d *= np.invert(mask_2d)\n")
-mut("c01-masked-slim-returns-unmasked", "C01", "autoarray/mask/derive/indexes_2d.py",
-    "mask_2d=np.array(self.mask), return_masked_indexes=True", "mask_2d=np.array(self.mask), return_masked_indexes=False")
-mut("c01-slim-column-major", "C01", "autoarray/structures/arrays/array_2d_util.py",
-    "    for y in range(mask_2d.shape[0]):\n        for x in range(mask_2d.shape[1]):\n            if not mask_2d[y, x]:\n                array_2d_slim[index] = array_2d_native[y, x]",
-    "    for x in range(mask_2d.shape[1]):\n        for y in range(mask_2d.shape[0]):\n            if not mask_2d[y, x]:\n                array_2d_slim[index] = array_2d_native[y, x]")
-
-try:
-    sys.path.insert(0, os.path.join(VERIF, "tools"))
-    from mutants_more import register  # noqa
-    register(mut)
-except ImportError:
-    pass
+for _p in sorted(glob.glob(os.path.join(VERIF, "tools", "mutants.d", "*.py"))):
+    _ns = {"mut": mut}
+    exec(compile(open(_p).read(), _p, "exec"), _ns)
 
 
 def make_copy():
